@@ -529,14 +529,12 @@ def spec_iter(items, ops):
     return out, rems
 
 
-def as_written(ops, want, argc):
-    """the two places where the code AS IT IS departs from that contract (known findings): len() = argc whatever has
-    been yielded, size_hint() = the default (0, None).  Used for the model-only stream."""
-    return [("l=%d" % argc) if op == "l" else "h=0,none" if op == "h" else w for op, w in zip(ops, want)]
-
-
 def judge_iter(items, ops, got):
-    """[(kind, why, index of the failing op)] of one script; stops at the first answer that changes the iterator's state"""
+    """[(kind, why, index of the failing op)] of one script; stops at the first answer that changes the iterator's state.
+    Two kinds keep the signatures of the findings repaired by /repo d3e06ee (known_findings.d/C07.jsonl, status fixed), so
+    that a regression is reported under them: `len-is-argc-not-remaining` (len() answers the total argc on a partly
+    consumed iterator) and `size-hint-not-exact` (size_hint() answers bounds that hold but are not the exact remainder).
+    Both are ordinary violations; they do not change the iterator's state, so the rest of the script is still judged."""
     want, rems = spec_iter(items, ops)
     bad = []
     for i, (op, w) in enumerate(zip(ops, want)):
@@ -663,7 +661,7 @@ def iter_mode(ctx, mode, release, quick, full):
 
 def model_iter_stream(ctx, quick):
     """no probe: the Lean iterator model on spec-side images (argc 0 included, which execve cannot produce on this kernel)
-    against the oracle, with the two known departures of the code as written substituted (as_written)"""
+    against the oracle, every answer (len / size_hint included) exactly"""
     r = iter_rng(ctx, "model")
     lines, exp = [], []
     for argc in range(0, 7):
@@ -673,7 +671,7 @@ def model_iter_stream(ctx, quick):
         for kind in ("os", "args"):
             for sc in gen_scripts(r, argc, 60 if quick else 1500, exhaustive=argc in (0, 2, 4)):
                 lines.append("it %s %s" % (kind, " ".join(sc)))
-                exp.append(" ".join(["it"] + as_written(sc, spec_iter(it_items(argv, kind), sc)[0], argc)))
+                exp.append(" ".join(["it"] + spec_iter(it_items(argv, kind), sc)[0]))
     model_compare(ctx, "model-iter-vs-spec", lines, exp, lambda i: {"line": lines[i][:300]})
 
 
@@ -844,6 +842,10 @@ def model_streams(ctx, quick):
     # the pre-fix bodies keep exhibiting the defect (the witness proved in Props/C07 by `decide`)
     model_compare(ctx, "legacy-witness", ["env 484f4d453d78", "legacy-var 484f4d4552", "legacy-varu 484f4d4552", "var 484f4d4552", "varu 484f4d4552"],
                   ["ok", "ok 78", "ok 78", "missing", "missing"], lambda i: {})
+    # ... and so do the pre-d3e06ee bodies of len() / size_hint() (Props/C07 legacy_len_not_remaining_witness): 3 and (0, None)
+    # after one next() over three arguments where the repaired code (and the arguments passed) say 2 and (2, Some(2))
+    model_compare(ctx, "legacy-iter-witness", ["build 4096 a 61 - fffe e x", "legacy-it os n l h", "it os n l h", "legacy-it args n l h", "it args n l h"],
+                  [None, "it n=S:61 l=3 h=0,none", "it n=S:61 l=2 h=2,2", "it n=S:ok:61 l=3 h=0,none", "it n=S:ok:61 l=2 h=2,2"], lambda i: {})
     model_compare(ctx, "malformed", ["", "stack", "stack 12 zz", "var", "var 4", "env 4", "reloc 1 2", "build x", "nop 1", "utf8 1 2",
                                      "it os n", "build 4096 a 61 e x", "it os", "it xx n", "it os q", "it os N", "it os N:x", "it os t:0",
                                      "it os c n", "it args L l", "it os N:18446744073709551616", "it os n:1"],
@@ -984,10 +986,14 @@ def run(ctx):
         "the argument iterators are observed as stateful objects: the probe runs each script through the methods a program calls (it.nth, it.by_ref().skip(k).next(), "
         "it.by_ref().step_by(k), it.len, it.size_hint, it.count, it.last, it.fold), so a library override of any of them is the code that runs; answers are judged by a plain-Python "
         "cursor over the arguments the kernel image holds (every call relative to the current position, len/size_hint = exact remainder) and compared with Model/Env.lean runOps on the same raw image. "
-        "On the unchanged tree ArgsOs/Args override only next and len; the default bodies of nth / Skip::next / StepBy::next / fold / count / last / size_hint in the model are core's "
+        "On the unchanged tree ArgsOs/Args override only next, size_hint and len; the default bodies of nth / Skip::next / StepBy::next / fold / count / last in the model are core's "
         "(rustc 1.95), tied by this correspondence, not extracted. DoubleEndedIterator / Clone are not implemented by the library, so next_back / clone cannot be scripted; "
         "count / last / fold take the iterator by value and therefore end a script (an override of them is not reached through by_ref())",
-        "known findings on the unchanged tree (reported as KNOWN-FINDING, theorem iter_ops_exact_partial excludes exactly these two calls): len() of a partly consumed ArgsOs/Args is argc, not the remainder; size_hint() is the default (0, None) although both types are ExactSizeIterator",
+        "len() / size_hint() of ArgsOs/Args are judged like every other call (theorem iter_ops_exact covers every well-formed script, these two calls included): "
+        "the exact number of arguments not yet yielded at every point of a script. The two findings of the earlier rounds (len() of a partly consumed iterator was argc, "
+        "size_hint() was the default (0, None)) are repaired in /repo by d3e06ee and listed as `fixed` in known_findings.d/C07.jsonl, which suppresses nothing: a regression "
+        "is an ordinary VIOLATION, reported under the same signatures (kind len-is-argc-not-remaining / size-hint-not-exact); the pre-fix bodies are kept as Env.Legacy.itStep "
+        "with the witness legacy_len_not_remaining_witness (stream legacy-iter-witness)",
     ]
     ctx.assumptions += ["tiny-start/src/elf/aux.rs and dynlink.rs are additionally include!d into harness/c07 and run in-process on synthetic aux vectors / ELF tables (buffer address = load base); the REL relocation loop is exercised only there (x86-64 links emit RELA)"]
     ctx.trusted += ["no-libc probe /verif/harness-nolibc/c07probe (prints what tiny-std's API returns and dumps raw memory), the raw fork+execve launcher in checks/c07.py, strace (vDSO-in-use observation)"]
